@@ -437,6 +437,100 @@ class CheckExtendedTask(Task):
             I.ob(f"{P}/one-response-item-per-entry-the-item-setters-accept-in-the-handler's-order-and-none-on-failure", ok, detail=f"{kindn}: {val!r}")
 
 
+class CheckAsyncOpsTask(Task):
+    """ACSE._check_async_ops on its real body: the handler's answer is ignored (asynchronous operations are not supported): the
+    result is None when the handler says NotImplementedError and otherwise the fixed window (1, 1) - whatever else the handler
+    returns or raises; nothing escapes and assoc.abort is the blocking variant again afterwards."""
+    name = "ACSE._check_async_ops"
+    FN = f"{AC}:ACSE._check_async_ops"
+    functions = [FN]
+    shard = False
+
+    def __init__(self, prefix="C13/"):
+        self.prefix = prefix
+
+    def config(self, repo):
+        return base_config(self.prefix)
+
+    def body(self, I):
+        P = f"{self.prefix}{self.FN}"
+        g = I.ghost
+        me = Env("acse", cls=I.repo.cls(f"{AC}:ACSE"))
+        assoc, requestor = Env("acse.assoc"), Env("acse.requestor")
+        me.attrs.update(_assoc=assoc, assoc=assoc, requestor=requestor)
+        requestor.attrs["asynchronous_operations"] = (I.input("int", "nr_invoked"), I.input("int", "nr_performed"))
+        excs = exception_partition(I.repo.func(self.FN))
+        KINDS = ["not implemented", "raises", "returns a window", "returns nonsense"]
+        kindn = KINDS[I.choose(len(KINDS), "handler behaviour")]
+        exc_name = excs[I.choose(len(excs), "class of the exception the handler raises")] if kindn == "raises" and len(excs) > 1 else excs[0]
+
+        def handler(I_, attrs):
+            if kindn == "not implemented":
+                raise PyRaise(ExcVal("NotImplementedError"))
+            if kindn == "raises":
+                raise PyRaise(ExcVal(exc_name, ("handler failed",)))
+            return (5, 5) if kindn == "returns a window" else "nonsense"
+        g["handlers"] = {"EVT_ASYNC_OPS": handler}
+        kind, val = I.run_function(I.repo.func(self.FN), [me])
+        I.ob(f"{P}/no-exception-whatever-the-handler-does", kind == "return", detail=f"{kindn} ({exc_name}): {kind}:{val!r}")
+        if kind != "return":
+            return
+        if kindn == "not implemented":
+            I.ob(f"{P}/no-response-item-when-the-handler-is-not-implemented", val is None, detail=repr(val))
+        else:
+            ok = isinstance(val, Obj) and val.cls.name == "AsynchronousOperationsWindowNegotiation" and \
+                val.fields.get("_maximum_number_operations_invoked") == 1 and val.fields.get("_maximum_number_operations_performed") == 1
+            I.ob(f"{P}/the-answer-is-the-fixed-window-1-1-whatever-the-handler-said", ok, detail=f"{kindn}: {val!r} {getattr(val, 'fields', None)}")
+        sets = [e.args[2] for e in I.trace if e.name == "setattr" and e.args[0] == "acse.assoc" and e.args[1] == "abort"]
+        I.ob(f"{P}/assoc.abort-is-restored-to-the-blocking-variant-on-every-path",
+             len(sets) >= 2 and isinstance(sets[-1], Env) and sets[-1].path.endswith("_abort_blocking"), detail=repr([getattr(x, 'path', x) for x in sets]))
+
+
+class DefaultHandlersTask(Task):
+    """"No handler bound" means the library's default handler is called: for the four negotiation events the defaults must
+    not refuse anything - the identity and asynchronous-operations defaults raise NotImplementedError (which the call sites
+    read as 'not implemented: go on'), the two SOP-class-extended defaults return an empty dict; get_default_handler maps each
+    of these events to exactly that default."""
+    name = "events.get_default_handler/negotiation-defaults"
+    EV = "pynetdicom.events"
+    functions = [f"{EV}:get_default_handler", f"{EV}:_user_identity_handler", f"{EV}:_async_ops_handler", f"{EV}:_sop_common_handler",
+                 f"{EV}:_sop_extended_handler"]
+    shard = False
+    WANT = {"EVT_USER_ID": ("_user_identity_handler", "NotImplementedError"), "EVT_ASYNC_OPS": ("_async_ops_handler", "NotImplementedError"),
+            "EVT_SOP_COMMON": ("_sop_common_handler", {}), "EVT_SOP_EXTENDED": ("_sop_extended_handler", {})}
+
+    def __init__(self, prefix="C13/"):
+        self.prefix = prefix
+
+    def config(self, repo):
+        c = Config()
+        c.ob_prefix = self.prefix
+        return c
+
+    def body(self, I):
+        P = f"{self.prefix}{self.EV}:get_default_handler"
+        names = sorted(self.WANT)
+        evn = names[I.choose(len(names), "event")]
+        ns = I.module_ns(I.repo.module(self.EV))
+        ev = ns[evn]
+        kind, h = I.run_function(I.repo.func(f"{self.EV}:get_default_handler"), [ev])
+        I.ob(f"{P}/no-exception", kind == "return", detail=f"{evn}: {kind}:{h!r}")
+        if kind != "return":
+            return
+        fname, outcome = self.WANT[evn]
+        fi = getattr(h, "fi", None)
+        I.ob(f"{P}/the-default-of-each-negotiation-event-is-its-own-default-handler", fi is not None and fi.name == fname,
+             detail=f"{evn}: {getattr(fi, 'qualname', h)!r}")
+        if fi is None:
+            return
+        k2, v2 = I.run_function(fi, [Env("event")])
+        if outcome == "NotImplementedError":
+            I.ob(f"{P}/the-default-identity-and-async-ops-handlers-say-not-implemented", k2 == "raise" and v2.cls_name == "NotImplementedError",
+                 detail=f"{evn}: {k2}:{v2!r}")
+        else:
+            I.ob(f"{P}/the-default-SOP-class-extended-handlers-answer-nothing", k2 == "return" and v2 == {}, detail=f"{evn}: {k2}:{v2!r}")
+
+
 class ActiveAssociationsTask(Task):
     """AE.active_associations (what the limit check counts) is exactly the live Association threads of this AE: every thread
     that threading.enumerate() reports, is an Association and belongs to this AE - no further condition (an association that
